@@ -134,3 +134,26 @@ contract(
     domain=False,
     props=["C18", "C15"],
 )
+
+contract(
+    target=f"{T}::_gap_has_empty_line_offsets",
+    params={"source_bytes": Bytes, "start": Int, "end": Int, "first_newline": Opt(Int)},
+    returns=Bool,
+    requires=["0 <= start and start <= end and end <= len(source_bytes)",
+              "implies(first_newline is not None, start <= first_newline and first_newline < end and source_bytes[first_newline] == 10)"],
+    # memory safety of the offset scanner (C20: no IndexError on any gap, also at end of file) ...
+    ensures=[
+        # ... and a positive answer needs at least two line feeds in the window
+        "implies(result, end - start >= 2)",
+    ],
+    exsures={},
+    loops={
+        0: Loop(invariant=["newline_index == -1 or (start <= newline_index and newline_index < end and source_bytes[newline_index] == 10)"]),
+        1: Loop(invariant=["newline_index + 1 <= cursor and cursor <= end",
+                           "start <= newline_index and newline_index < end and source_bytes[newline_index] == 10",
+                           "all(source_bytes[k] == 32 or source_bytes[k] == 9 for k in range(newline_index + 1, cursor))"],
+                decreases="end - cursor"),
+    },
+    domain=dict(alphabet=["\n", " ", "\t", "a", "\r"], max_len=5, max_len_thorough=6, ints=[0, 1, 2, 3, 4, 5]),
+    props=["C20", "C02", "C06"],
+)
